@@ -1,6 +1,7 @@
 package checks
 
 import (
+	"bytes"
 	"fmt"
 	"math/rand"
 	"runtime"
@@ -116,6 +117,7 @@ func runC01(c *mon.Ctx) {
 			})
 		}
 	}
+	c.Case("retained-results", func() { c01kept.Flush(c) })
 }
 
 func c01one(c *mon.Ctx, env *Env, s *statement, w, gmp int, rng *rand.Rand, caseNo int, refBudget *int) {
@@ -216,7 +218,18 @@ func c01one(c *mon.Ctx, env *Env, s *statement, w, gmp int, rng *rand.Rand, case
 	if caseNo == 2 {
 		c.Sample(det)
 	}
+	// the caller keeps the proof object: a dozen proofs and verifications later it must still serialise to the same bytes
+	kept, orig := pr, pbytes
+	c01kept.Keep(c, "CreateMultiProof", func() string {
+		var w bytes.Buffer
+		if err := kept.Write(&w); err != nil || !bytes.Equal(w.Bytes(), orig) {
+			return fmt.Sprintf("a proof returned by an earlier CreateMultiProof no longer serialises to the same bytes (err=%v)", err)
+		}
+		return ""
+	})
 }
+
+var c01kept = Retainer{Cap: 12}
 
 // c01poison calls the verifier with malformed proofs / statements derived from an honest one. Every call must come back
 // (a panic is contained and not judged here - C02 judges the verifier's decisions); what matters is the next honest call.
